@@ -285,8 +285,16 @@ func c15Judge(m *c15Model, r c15Req, ev tlmetadata.Event, err error, excused boo
 		}
 		return "", "", false
 	}
+	// attribution: the prefix of the requested name is (also) the full name of an entity of another type
+	other := ""
+	if m.otherTypeNamed(r.name) {
+		other = ":prefix-is-name-of-another-type"
+	}
 	if exp == c15MustFail {
-		return "C15:" + clause, fmt.Sprintf("%v accepted (assigned version %d)", r, ev.Version), true
+		if clause != "missing-namespace-accepted" {
+			other = ""
+		}
+		return "C15:" + clause + other, fmt.Sprintf("%v accepted (assigned version %d, namespace id %d)", r, ev.Version, ev.NamespaceId), true
 	}
 	// accepted: the version must be new and greater than every version assigned before
 	if ev.Version <= before {
@@ -296,7 +304,7 @@ func c15Judge(m *c15Model, r c15Req, ev tlmetadata.Event, err error, excused boo
 		return "C15:wrong-entity-answered", fmt.Sprintf("%v answered with entity id %d", r, ev.Id), true
 	}
 	if ev.NamespaceId != nsID {
-		return "C15:wrong-namespace-id", fmt.Sprintf("%v accepted with namespace id %d, the namespace it names has id %d", r, ev.NamespaceId, nsID), true
+		return "C15:wrong-namespace-id" + other, fmt.Sprintf("%v accepted with namespace id %d, the namespace it names has id %d", r, ev.NamespaceId, nsID), true
 	}
 	m.apply(r, ev, nsID)
 	return "", "", true
@@ -341,7 +349,18 @@ func c15CheckJournal(x *c15Inst, m *c15Model) (sig, desc string, full string) {
 	// comparison with the model, asserted on the real answer as well
 	evs, _ := x.journalPaged(0, 100)
 	names, vers := map[string]int64{}, map[int64]int64{}
+	types := map[int64]int32{}
 	for _, e := range evs {
+		types[e.Id] = e.EventType
+	}
+	for _, e := range evs {
+		// "entities in a namespace must reference an existing namespace": on the real answer alone
+		if e.NamespaceId != 0 {
+			if typ, ok := types[e.NamespaceId]; !ok || typ != format.NamespaceEvent {
+				return "C15:namespace-id-is-not-a-namespace", fmt.Sprintf("journal: entity %d (type %d, %q) carries namespace id %d, which is %s", e.Id, e.EventType, e.Name, e.NamespaceId,
+					map[bool]string{true: fmt.Sprintf("an entity of type %d", typ), false: "no entity at all"}[ok]), ""
+			}
+		}
 		k := fmt.Sprintf("%d/%d/%s", e.EventType, e.NamespaceId, e.Name)
 		if o, ok := names[k]; ok {
 			return "C15:duplicate-name-accepted", fmt.Sprintf("entities %d and %d share type/namespace/name %s", o, e.Id, k), ""
@@ -711,7 +730,7 @@ func TestVerifC15(t *testing.T) {
 		depth = min(depth, v)
 		rep.Cap(fmt.Sprintf("VERIF_C15_MAXDEPTH=%d", v))
 	}
-	rep.Rule = "part 1: every history up to the depth bound over {create metric a / b / ns:a, group a / ns:a, namespace ns / b, dashboard a; edit of the 1st and 2nd created entity naming its current or a stale version and keeping the name / a free name c / a possibly taken name a / a name in namespace ns:c; delete with current or stale version}, all requests through RawEditEntity, state-hashing BFS over the journal; part 2: at every distinct state reached, for every entity, {edit, delete, rename} built from the same observed version in all 6 orders on fresh replays and once from 3 concurrent goroutines; part 3: every history up to its depth bound of {create, edit 1st, edit 2nd entity} x {small, ~600 KiB data} (two large entities exceed the journal's 1 MiB page byte budget), journal followed by cursor from every start version with page limits 1, 2, 100; part 4: on every state of part 1 within the fault prefix bound, every request shape of part 1 once more with an environment fault (request context expiring after its N-th check for every N below the number of checks of the unfaulted request, binlog refusing the append, engine in replica role), a refused request must be invisible to the journal, the entity history, the retried and competing requests built from the state observed before it, and to a database rebuilt from the binlog; part 5: every history up to its depth bound over {create a, create b, edit of the first entity the clients know from the latest version handed out, journal read, binlog commit up to the first non-durable event / of everything / announced once more} on the real DBV2 over an in-memory binlog whose durable offset only the explorer moves (requests in flight are parked by the engine until their commit), every answer checked against the durable binlog prefix at the moment it is handed out, then crash + restart over the durable prefix + one more create. Non-trivial: the last request conflicts with the state and has to be refused (stale version, taken name, missing namespace, namespace rename); in part 4: a request the unfaulted run accepts is refused only because of the fault; in part 5: the history ends with callers parked behind a non-durable event or had a reader parked behind two of them"
+	rep.Rule = "part 1: every history up to the depth bound over {create metric a / b / ns:a, group a / ns:a, namespace ns / b, dashboard a; edit of the 1st and 2nd created entity naming its current or a stale version and keeping the name / a free name c / a possibly taken name a / a name in namespace ns:c; delete with current or stale version}, all requests through RawEditEntity, state-hashing BFS over the journal; part 2: at every distinct state reached, for every entity, {edit, delete, rename} built from the same observed version in all 6 orders on fresh replays and once from 3 concurrent goroutines; part 3: every history up to its depth bound of {create, edit 1st, edit 2nd entity} x {small, ~600 KiB data} (two large entities exceed the journal's 1 MiB page byte budget), journal followed by cursor from every start version with page limits 1, 2, 100; part 4: on every state of part 1 within the fault prefix bound, every request shape of part 1 once more with an environment fault (request context expiring after its N-th check for every N below the number of checks of the unfaulted request, binlog refusing the append, engine in replica role), a refused request must be invisible to the journal, the entity history, the retried and competing requests built from the state observed before it, and to a database rebuilt from the binlog; part 5: every history up to its depth bound over {create a, create b, edit of the first entity the clients know from the latest version handed out, journal read, binlog commit up to the first non-durable event / of everything / announced once more} on the real DBV2 over an in-memory binlog whose durable offset only the explorer moves (requests in flight are parked by the engine until their commit), every answer checked against the durable binlog prefix at the moment it is handed out, then crash + restart over the durable prefix + one more create; part 6: every history up to its depth bound over a name pool shared across entity types {create metric / group / dashboard / prom config / namespace all called t, create metric / group t:x, create metric x, rename of the 1st, 2nd (thorough: 3rd) created entity to t:y from its current version, delete of it}, same reference (a prefixed name resolves only to an entity of type namespace) and oracles as part 1, and every non-zero namespace id in the journal is the id of an entity of type namespace. Non-trivial: the last request conflicts with the state and has to be refused (stale version, taken name, missing namespace, namespace rename); in part 4: a request the unfaulted run accepts is refused only because of the fault; in part 5: the history ends with callers parked behind a non-durable event or had a reader parked behind two of them"
 	rep.Bounds["history_depth"] = depth
 	rep.Bounds["alphabet"] = ex.names(vmetaSeq(len(ops)))
 	rep.Bounds["paging_depth"] = mc.Pick(4, 5)
@@ -791,6 +810,8 @@ func TestVerifC15(t *testing.T) {
 	c15RunFaultPart(t, rep, ex)
 	// part 5: the durability window (verif_c15_durable_test.go)
 	c15RunDurablePart(t, rep)
+	// part 6: one name pool shared across entity types (verif_c15_namepool_test.go)
+	c15RunNamePoolPart(t, rep)
 	if err := rep.Write(); err != nil {
 		t.Fatal(err)
 	}
